@@ -104,10 +104,16 @@ pub fn main() {
                 println!("(compile-level finding; re-run `./run check C19` to re-evaluate on this tree)");
                 std::process::exit(2);
             }
-            if part_name == "custom" && (id == "C17" || id == "C18") {
+            if part_name == "custom" && matches!(id, "C17" | "C18" | "C03" | "C14" | "C15") {
                 // bounded-exhaustive finding: explicit scheduler choices
                 let case: crate::sched_checks::SchedCase = serde_json::from_value(v["case"]["case"].clone()).expect("explicit schedule case");
-                let focus = if id == "C17" { crate::sched_checks::SF::C17 } else { crate::sched_checks::SF::C18 };
+                let focus = match id {
+                    "C17" => crate::sched_checks::SF::C17,
+                    "C18" => crate::sched_checks::SF::C18,
+                    "C03" => crate::sched_checks::SF::C03,
+                    "C14" => crate::sched_checks::SF::C14,
+                    _ => crate::sched_checks::SF::C15,
+                };
                 let out = crate::sched_checks::judge(&case, focus, Some(true));
                 println!("case: {}", serde_json::to_string(&v["case"]).unwrap());
                 match out.violation {
